@@ -31,6 +31,10 @@
 #  include <arpa/inet.h>
 #endif
 
+#ifdef HAVE_LIMITS_H
+#  include <limits.h>
+#endif
+
 #include "ares_data.h"
 #include "ares_inet_net_pton.h"
 
@@ -309,9 +313,14 @@ ares_status_t ares_init_by_options(ares_channel_t            *channel,
     /* Apparently some integrations were passing -1 to tell c-ares to use
      * the default instead of just omitting the optmask */
     if (options->timeout > 0) {
-      /* Convert to milliseconds */
-      optmask          |= ARES_OPT_TIMEOUTMS;
-      channel->timeout  = (unsigned int)options->timeout * 1000;
+      /* Convert to milliseconds, the result must stay representable as the int
+       * ares_save_options() hands back */
+      optmask |= ARES_OPT_TIMEOUTMS;
+      if (options->timeout > INT_MAX / 1000) {
+        channel->timeout = INT_MAX;
+      } else {
+        channel->timeout = (unsigned int)options->timeout * 1000;
+      }
     }
   }
 
